@@ -257,17 +257,19 @@ Lemma tokenized_values_only : forall {L L'} (s : @series L (list (str * list Z))
   ser_values s = ser_values s' -> tokenized_forward s = tokenized_forward s'.
 Proof. intros. unfold tokenized_forward. rewrite H. reflexivity. Qed.
 
-Lemma encode_col_relabel : forall {L L'} (idx : list L) (idx' : list L') c,
-  length idx = length idx' -> encode_col idx c = encode_col idx' c.
+Lemma encode_col_relabel : forall {L L'} (leqb : L -> L -> bool) (leqb' : L' -> L' -> bool)
+  (idx : list L) (idx' : list L') c,
+  leqb_refl leqb -> leqb_refl leqb' ->
+  length idx = length idx' -> encode_col leqb idx c = encode_col leqb' idx' c.
 Proof.
-  intros L L' idx idx' c H.
+  intros L L' leqb leqb' idx idx' c Hr Hr' H.
   assert (V : forall C (cells : list C), ser_values (combine idx cells) = ser_values (combine idx' cells))
     by (intros; rewrite !ser_values_combine, H; reflexivity).
   destruct c; simpl.
   - rewrite (numerical_values_only _ _ (V _ cells)). reflexivity.
   - rewrite (categorical_values_only cats _ _ (V _ cells)). reflexivity.
-  - rewrite (multicategorical_values_only cats sep _ _ (V _ cells)). reflexivity.
-  - rewrite (sequence_values_only _ _ (V _ cells)). reflexivity.
+  - rewrite (multicategorical_values_only dtype_ok cats sep _ _ (V _ cells)). reflexivity.
+  - rewrite (sequence_values_only leqb leqb' _ _ Hr Hr' (V _ cells)). reflexivity.
   - rewrite (timestamp_values_only _ _ (V _ cells)). reflexivity.
   - rewrite (embedding_values_only _ _ (V _ cells)). reflexivity.
   - rewrite (embedded_values_only _ _ (V _ rows)). reflexivity.
@@ -288,11 +290,14 @@ Proof.
   destruct target as [t|]; [|reflexivity]. destruct (get_col cols t); [rewrite H|]; reflexivity.
 Qed.
 
-Lemma convert_relabel : forall {L L'} target (df : frame L) (df' : frame L'),
-  f_cols df = f_cols df' -> length (f_index df) = length (f_index df') -> convert target df = convert target df'.
+Lemma convert_relabel : forall {L L'} (leqb : L -> L -> bool) (leqb' : L' -> L' -> bool) target
+  (df : frame L) (df' : frame L'),
+  leqb_refl leqb -> leqb_refl leqb' ->
+  f_cols df = f_cols df' -> length (f_index df) = length (f_index df') ->
+  convert leqb target df = convert leqb' target df'.
 Proof.
-  intros L L' target df df' Hc Hl. unfold convert. rewrite Hc. apply convert_with_ext.
-  intro c. apply encode_col_relabel. exact Hl.
+  intros L L' leqb leqb' target df df' Hr Hr' Hc Hl. unfold convert. rewrite Hc. apply convert_with_ext.
+  intro c. apply encode_col_relabel; assumption.
 Qed.
 
 (* ------------------------------------------------------------------------- *)
@@ -617,14 +622,15 @@ Lemma combine_nil_iff : forall {L C} (idx : list L) (cells : list C),
   length idx = length cells -> cells <> [] -> combine idx cells <> [].
 Proof. intros L C idx cells H Hne. destruct idx, cells; simpl in *; congruence. Qed.
 
-Lemma encode_col_canonical : forall {L} (idx : list L) c col,
-  length idx = rawcol_len c -> rawcol_ok c -> encode_col idx c = Some (ECol col) -> canonical_col c col.
+Lemma encode_col_canonical : forall {L} (leqb : L -> L -> bool) (idx : list L) c col,
+  leqb_refl leqb ->
+  length idx = rawcol_len c -> rawcol_ok c -> encode_col leqb idx c = Some (ECol col) -> canonical_col c col.
 Proof.
-  intros L idx c col Hl Hok H. destruct c; simpl in *.
+  intros L leqb idx c col Hr Hl Hok H. destruct c; simpl in *.
   - injection H as <-. rewrite numerical_faithful, ser_values_combine_eq by assumption. reflexivity.
   - injection H as <-. rewrite categorical_faithful, ser_values_combine_eq by assumption. reflexivity.
-  - destruct Hok as (ND & Hm & Ht).
-    destruct (multicategorical_encode cats sep (combine idx cells)) as [enc|] eqn:E; [|discriminate].
+  - destruct Hok as (-> & ND & Hm & Ht).
+    destruct (multicategorical_encode true cats sep (combine idx cells)) as [enc|] eqn:E; [|discriminate].
     injection H as <-.
     destruct (mapM (canon_multi cats sep) cells) as [canon|] eqn:M.
     + assert (M' : mapM (canon_multi cats sep) (ser_values (combine idx cells)) = Some canon)
@@ -634,9 +640,9 @@ Proof.
       destruct (multicategorical_faithful_sorted cats sep _ canon ND Hm Ht' M') as [enc' [E' S]].
       rewrite E in E'. injection E' as <-. rewrite S. reflexivity.
     + rewrite multicategorical_raises in E; [discriminate|]. rewrite ser_values_combine_eq by assumption. exact M.
-  - destruct (sequence_encode (combine idx cells)) as [enc|] eqn:E; [|discriminate]. injection H as <-.
+  - destruct (sequence_encode leqb (combine idx cells)) as [enc|] eqn:E; [|discriminate]. injection H as <-.
     destruct (mapM canon_seq cells) as [canon|] eqn:M.
-    + rewrite (sequence_faithful (combine idx cells) canon) in E
+    + rewrite (sequence_faithful leqb (combine idx cells) canon Hr) in E
         by (rewrite ser_values_combine_eq by assumption; exact M). congruence.
     + rewrite sequence_raises in E; [discriminate|]. rewrite ser_values_combine_eq by assumption. exact M.
   - injection H as <-. rewrite timestamp_faithful, ser_values_combine_eq by assumption. reflexivity.
@@ -909,34 +915,34 @@ Qed.
 
 (* every cell of the frame is the canonical encoding of the cell in the same
    row of the column with that name; in particular every column has len(df) rows *)
-Lemma convert_positional : forall {L} target (df : frame L) t k names fc,
-  frame_wf df -> convert target df = Some t ->
+Lemma convert_positional : forall {L} (leqb : L -> L -> bool) target (df : frame L) t k names fc,
+  leqb_refl leqb -> frame_wf df -> convert leqb target df = Some t ->
   sd_get (tf_names t) k = Some names -> sd_get (tf_feats t) k = Some (FCols fc) ->
   Forall2 (fun nm col => exists c, get_col (f_cols df) nm = Some c /\ canonical_col c col /\
                                    length col = length (f_index df)) names fc.
 Proof.
-  intros L target df t k names fc W H En Ef. unfold convert in H.
+  intros L leqb target df t k names fc Hr W H En Ef. unfold convert in H.
   pose proof (convert_aligned _ _ _ _ H k) as A. rewrite En, Ef in A.
   eapply Forall2_impl'; [|exact A]. intros nm col [c [G E]]. exists c. split; [exact G|].
   unfold frame_wf in W. rewrite Forall_forall in W. destruct (W (nm, c) (get_col_member _ _ _ G)) as [Wl Wo].
   cbn [snd] in *.
-  assert (C : canonical_col c col) by (eapply encode_col_canonical; [symmetry; exact Wl | exact Wo | exact E]).
+  assert (C : canonical_col c col) by (eapply encode_col_canonical; [exact Hr | symmetry; exact Wl | exact Wo | exact E]).
   split; [exact C|]. rewrite <- Wl. apply canonical_col_length; [|exact C].
   intro S. destruct c; try discriminate. simpl in E. destruct (tokenized_forward _); discriminate.
 Qed.
 
-Lemma convert_target : forall {L} target (df : frame L) t tg c,
-  convert target df = Some t -> target = Some tg -> get_col (f_cols df) tg = Some c ->
-  exists y, tf_y t = Some y /\ encode_col (f_index df) c = Some y.
+Lemma convert_target : forall {L} (leqb : L -> L -> bool) target (df : frame L) t tg c,
+  convert leqb target df = Some t -> target = Some tg -> get_col (f_cols df) tg = Some c ->
+  exists y, tf_y t = Some y /\ encode_col leqb (f_index df) c = Some y.
 Proof.
-  intros L target df t tg c H -> G. unfold convert in H.
+  intros L leqb target df t tg c H -> G. unfold convert in H.
   destruct (convert_schema _ _ _ _ H) as (_ & _ & _ & _ & Y). unfold target_y in Y. rewrite G in Y.
-  destruct (encode_col (f_index df) c) as [y|]; [|discriminate]. injection Y as Y. exists y. auto.
+  destruct (encode_col leqb (f_index df) c) as [y|]; [|discriminate]. injection Y as Y. exists y. auto.
 Qed.
 
-Lemma convert_no_target : forall {L} (df : frame L) t,
-  convert None df = Some t -> tf_y t = None.
+Lemma convert_no_target : forall {L} (leqb : L -> L -> bool) (df : frame L) t,
+  convert leqb None df = Some t -> tf_y t = None.
 Proof.
-  intros L df t H. unfold convert in H. destruct (convert_schema _ _ _ _ H) as (_ & _ & _ & _ & Y).
+  intros L leqb df t H. unfold convert in H. destruct (convert_schema _ _ _ _ H) as (_ & _ & _ & _ & Y).
   simpl in Y. congruence.
 Qed.
